@@ -6,7 +6,7 @@
 """Beam element module."""
 
 from abc import abstractmethod
-from typing import TYPE_CHECKING
+from typing import TYPE_CHECKING, Optional
 
 import numpy as np
 
@@ -65,13 +65,43 @@ class _EulerBernoulli(_GroupElem):
             F_e_pg = np.abs(F_e_pg)
         return F_e_pg
 
-    def _Get_axis_sign_e(self) -> _types.FloatArray:
-        """(Ne, 1, 1) direction (+1 or -1) of the elements along the x axis.\n
-        A 1D structure has the single unknown ux, which is not rotated in the member's axes: d(ux)/dx = sign * d(ux)/ds.
+    def _Get_axis_sign_e(
+        self, beamStructure: Optional["BeamStructure"] = None
+    ) -> _types.FloatArray:
+        """(Ne, 1, 1) direction (+1 or -1) of the elements (node 0 -> node 1) along the axis the unknowns are written in.\n
+        The shape functions are differentiated along the element (abscissa s), the strains and the rotations (rz = v', ry = -w')
+        are defined along the member axis x' (beam.xAxis, the direction of beam.line): d/dx' = sign * d/ds.\n
+        A 1D structure has the single unknown ux, which is not rotated in the member's axes: d(ux)/dx = sign * d(ux)/ds with the sign along the x axis.
         """
         connect = self._global_to_local_nodes[self.connect]
-        x_e = self.coord[connect[:, :2], 0]
-        return np.sign(x_e[:, 1] - x_e[:, 0]).reshape(-1, 1, 1)
+        t_e = self.coord[connect[:, 1]] - self.coord[connect[:, 0]]
+        if beamStructure is None or beamStructure.dim == 1:
+            proj_e = t_e[:, 0]
+        else:
+            xAxis_e = beamStructure.Get_axis_e(self)[0]
+            proj_e = np.einsum("ei,ei->e", t_e, xAxis_e)
+        return np.where(proj_e < 0, -1.0, 1.0).reshape(-1, 1, 1)
+
+    def _Get_Hermitian_e_pg(
+        self, beamStructure: "BeamStructure", order: int
+    ) -> FeArray.FeArrayALike:
+        """Hermitian shape functions (order = 0) or their derivatives of the given order along the member axis x'.\n
+        [phi_i psi_i . . . phi_n psi_n] with psi_i attached to the slope dv/dx' at node i.\n
+        (Ne, nPg, 1, nPe*2)\n
+        With d/dx' = sign * d/ds: psi_i(x') = sign * psi_i(s), and each derivative brings one more sign.
+        """
+        functions = [
+            self.Get_Hermitian_N_e_pg,
+            self.Get_Hermitian_dN_e_pg,
+            self.Get_Hermitian_ddN_e_pg,
+            self.Get_Hermitian_dddN_e_pg,
+        ]
+        values_e_pg = np.array(functions[order](), dtype=float)
+        sign_e = self._Get_axis_sign_e(beamStructure)
+        # phi columns: sign^order, psi columns: sign^(order+1)
+        columns = np.arange((order + 1) % 2, self.nPe * 2, 2)
+        values_e_pg[:, :, 0, columns] *= sign_e
+        return FeArray.asfearray(values_e_pg)
 
     # Beams shapes functions
     # Use hermitian shape functions
@@ -332,8 +362,10 @@ class _EulerBernoulli(_GroupElem):
 
         # get matrices to work with
         Nu_pg = self.Get_N_pg(matrixType)
-        Nv_e_pg = self.Get_Hermitian_N_e_pg()
-        dNv_e_pg = self.Get_Hermitian_dN_e_pg()  # used for rz because rz = v'
+        Nv_e_pg = self._Get_Hermitian_e_pg(beamStructure, 0)
+        dNv_e_pg = self._Get_Hermitian_e_pg(
+            beamStructure, 1
+        )  # used for rz because rz = v'
 
         # Data
         nPe = self.nPe
@@ -446,8 +478,13 @@ class _EulerBernoulli(_GroupElem):
         dof_n = beamStructure.dof_n
 
         # Recover matrices to work with
-        dN_e_pg = self.Get_dN_e_pg(matrixType)
-        ddNv_e_pg = self.Get_Hermitian_ddN_e_pg()  # d²v/dx² — the EB bending curvature
+        # derivatives along the member axis: d/dx' = sign * d/ds
+        dN_e_pg = np.asarray(self.Get_dN_e_pg(matrixType)) * self._Get_axis_sign_e(
+            beamStructure
+        ).reshape(-1, 1, 1, 1)
+        ddNv_e_pg = self._Get_Hermitian_e_pg(
+            beamStructure, 2
+        )  # d²v/dx² — the EB bending curvature
 
         # Data
         nPe = self.nPe
@@ -459,9 +496,7 @@ class _EulerBernoulli(_GroupElem):
             idx_ux = np.arange(dof_n * nPe)
 
             B_e_pg = np.zeros((Ne, nPg, 1, dof_n * nPe), dtype=float)
-            B_e_pg[:, :, 0, idx_ux] = (
-                np.asarray(dN_e_pg[:, :, 0]) * self._Get_axis_sign_e()
-            )
+            B_e_pg[:, :, 0, idx_ux] = dN_e_pg[:, :, 0]
 
         elif dim == 2:
             # u = [u1, v1, rz1, . . . , un, vn, rzn]
@@ -545,7 +580,7 @@ class _EulerBernoulli(_GroupElem):
         """
         dim = beamStructure.dim
         dof_n = beamStructure.dof_n
-        dddNv_e_pg = self.Get_Hermitian_dddN_e_pg()  # (Ne, nPg, 1, nPe*2)
+        dddNv_e_pg = self._Get_Hermitian_e_pg(beamStructure, 3)  # (Ne, nPg, 1, nPe*2)
         nPe = self.nPe
         Ne, nPg = dddNv_e_pg.shape[:2]
 
@@ -675,7 +710,10 @@ class _Timoshenko(_EulerBernoulli):
         dof_n = beamStructure.dof_n
 
         Nu_pg = self.Get_N_pg(matrixType)[:, 0, :]  # (nPg, nPe)
-        dN_e_pg = self.Get_dN_e_pg(matrixType)  # (Ne, nPg, 1, nPe)
+        # derivatives along the member axis: d/dx' = sign * d/ds
+        dN_e_pg = np.asarray(self.Get_dN_e_pg(matrixType)) * self._Get_axis_sign_e(
+            beamStructure
+        ).reshape(-1, 1, 1, 1)  # (Ne, nPg, 1, nPe)
 
         nPe = self.nPe
         Ne, nPg = dN_e_pg.shape[:2]
@@ -685,9 +723,7 @@ class _Timoshenko(_EulerBernoulli):
         if dim == 1:
             idx_ux = idx[:, 0]
             B_e_pg = np.zeros((Ne, nPg, 1, dof_n * nPe), dtype=float)
-            B_e_pg[:, :, 0, idx_ux] = (
-                np.asarray(dN_e_pg[:, :, 0]) * self._Get_axis_sign_e()
-            )
+            B_e_pg[:, :, 0, idx_ux] = dN_e_pg[:, :, 0]
 
         elif dim == 2:
             # u = [u, v, rz] per node
